@@ -215,3 +215,119 @@ func VHBimapHist() {
 		vCover("bimap: history with >= 2 Adds")
 	}
 }
+
+// VHBimapPhases: a long concrete history (grow to G pairs, shrink to a few, optionally grow
+// again) followed by K operations with symbolic arguments; afterwards every key and value
+// ever used, and the operations' own arguments, are probed against the model. Reaches
+// size- and history-dependent behaviour (thresholds, rebuilds) that the short histories and
+// the directly constructed pre-states cannot.
+func VHBimapPhases() {
+	g := vParam("G")
+	b := &Bimap[int, int]{}
+	m := &c11model{}
+	for i := 0; i < g; i++ {
+		b.Add(i, 1000+i)
+		m.add(i, 1000+i)
+	}
+	vAssert(b.Len() == g, "phases: Len after growing")
+	// how many pairs survive the shrinking: none, one, or a few (at most a quarter of the peak)
+	keep := []int{0, 1, vParam("KEEP")}[vChoose("keep", 3)]
+	fromFront := vChoose("fromFront", 2) == 1
+	for j := 0; j < g-keep; j++ {
+		i := keep + j
+		if fromFront {
+			i = j
+		}
+		if j%2 == 0 {
+			b.RemoveForward(i)
+			m.removeForward(i)
+		} else {
+			b.RemoveReverse(1000 + i)
+			m.removeReverse(1000 + i)
+		}
+	}
+	vAssert(b.Len() == keep, "phases: Len after shrinking")
+	regrow := vChoose("regrow", 3) // 0 none, 1 fresh pairs, 2 a clone continues
+	if regrow == 2 {
+		c := b.Clone()
+		b = &c
+	}
+	if regrow >= 1 {
+		for i := 0; i < 3; i++ {
+			b.Add(2000+i, 3000+i)
+			m.add(2000+i, 3000+i)
+		}
+	}
+	var args []int
+	for s := 0; s < vParam("K"); s++ {
+		switch vChoose("op", 3) {
+		case 0:
+			k, v := vInt("ak"), vInt("av")
+			b.Add(k, v)
+			m.add(k, v)
+			args = append(args, k, v)
+		case 1:
+			k := vInt("rk")
+			b.RemoveForward(k)
+			m.removeForward(k)
+			args = append(args, k)
+		case 2:
+			v := vInt("rv")
+			b.RemoveReverse(v)
+			m.removeReverse(v)
+			args = append(args, v)
+		}
+	}
+	vAssert(b.Len() == m.size(), "phases: Len is the number of pairs")
+	probe := func(x int) {
+		ev, eok := m.forward(x)
+		gv, gok := b.GetForward(x)
+		ek, erok := m.reverse(x)
+		gk, grok := b.GetReverse(x)
+		// (one verification condition per probe: the four facts are asserted together)
+		vAssert(vAnd(vAnd(gok == eok, vImplies(eok, gv == ev)), vAnd(grok == erok, vImplies(erok, gk == ek))),
+			"phases: GetForward / GetReverse find exactly the live pairs and return the paired value / key")
+		if gok {
+			k2, ok2 := b.GetReverse(gv)
+			vAssert(ok2 && k2 == x, "phases: GetForward(k)=(v,true) implies GetReverse(v)=(k,true)")
+		}
+		if grok {
+			v2, ok2 := b.GetForward(gk)
+			vAssert(ok2 && v2 == x, "phases: GetReverse(v)=(k,true) implies GetForward(k)=(v,true)")
+		}
+	}
+	for _, x := range args {
+		probe(x)
+	}
+	// every pair that survived the shrinking, two that did not, and the regrown ones
+	// (probing all G removed keys as well would fork once per key on "is the symbolic argument this key")
+	lo, hi := 0, keep
+	if fromFront {
+		lo, hi = g-keep, g
+	}
+	for i := lo; i < hi; i++ {
+		probe(i)
+		probe(1000 + i)
+	}
+	gone := 0
+	if !fromFront {
+		gone = g - 1
+	}
+	probe(gone)
+	probe(1000 + gone)
+	for i := 0; i < 3; i++ {
+		probe(2000 + i)
+		probe(3000 + i)
+	}
+	n := 0
+	b.Range(func(k, v int) bool {
+		n++
+		ev, eok := m.forward(k)
+		vAssert(eok && ev == v, "phases: Range visits only live pairs")
+		return true
+	})
+	vAssert(n == b.Len(), "phases: Range visits every pair once")
+	if keep >= 2 && regrow >= 1 {
+		vCover("bimap phases: grow, shrink, grow again")
+	}
+}
